@@ -46,7 +46,7 @@ func (d *DifferInit) AnalyzeChanges() ([]*FileChange, error) {
 			}
 			return nil
 		}
-		if !utils.IsGoFile(path) {
+		if !d.cfg.IsTargetFile(path) {
 			return nil
 		}
 		// skip goat_generated.go
